@@ -9,12 +9,14 @@
 
 GLM_FUNC_QUALIFIER glm_f32vec4 glm_vec1_sqrt_lowp(glm_f32vec4 x)
 {
-	return _mm_mul_ss(_mm_rsqrt_ss(x), x);
+	// sqrt(0) must be 0: rsqrt(0) is +inf and inf * 0 is NaN
+	return _mm_and_ps(_mm_cmpneq_ss(x, _mm_setzero_ps()), _mm_mul_ss(_mm_rsqrt_ss(x), x));
 }
 
 GLM_FUNC_QUALIFIER glm_f32vec4 glm_vec4_sqrt_lowp(glm_f32vec4 x)
 {
-	return _mm_mul_ps(_mm_rsqrt_ps(x), x);
+	// sqrt(0) must be 0: rsqrt(0) is +inf and inf * 0 is NaN
+	return _mm_and_ps(_mm_cmpneq_ps(x, _mm_setzero_ps()), _mm_mul_ps(_mm_rsqrt_ps(x), x));
 }
 
 #endif//GLM_ARCH & GLM_ARCH_SSE2_BIT
